@@ -212,9 +212,11 @@ def check(ctx):
         raise _AR("OSError")
     ext_missing = dict(_DT, **{"os.path.getmtime": _missing, "os.stat": _missing, "os.path.exists": lambda p_: False,
                                "datetime.datetime.fromtimestamp": _fts})
-    ext_there = dict(_DT, **{"os.path.getmtime": lambda p_: 1234.5,
-                             "os.stat": lambda p_: _O(None, {"st_mtime": 1234.5, "st_mtime_ns": 1234500000000}),
-                             "os.path.exists": lambda p_: True, "datetime.datetime.fromtimestamp": _fts})
+    def ext_there_for(ts):
+        return dict(_DT, **{"os.path.getmtime": lambda p_: ts,
+                            "os.stat": lambda p_: _O(None, {"st_mtime": ts, "st_mtime_ns": int(ts * 1e9)}),
+                            "os.path.exists": lambda p_: True, "datetime.datetime.fromtimestamp": _fts})
+    ext_there = ext_there_for(1234.5)
     try:
         r_missing = _I(m, ext=ext_missing).call_func(g, None, ["/some/path"], {})
         ok = r_missing is None
@@ -228,6 +230,17 @@ def check(ctx):
     except _AR as e_:
         ok = False
     ctx.ob("C12.S3", f"{g.short}/from-mtime", ok, loc(g), "datetime built from the file's mtime, unmodified" if ok else "modified time is not the file's mtime")
+    # every mtime a file can have, also the epoch itself (restored archives, os.utime(path, (0, 0))) and times before it
+    for ts in (0.0, 1e-06, -86400.0):
+        seen_ts.clear()
+        try:
+            r_ = _I(m, ext=ext_there_for(ts)).call_func(g, None, ["/some/path"], {})
+            ok = r_ is not None and seen_ts == [ts]
+        except _AR as e_:
+            ok = False
+        ctx.ob("C12.S3", f"{g.short}/from-mtime[{ts}]", ok, loc(g), f"an existing file with mtime {ts} reports that time" if ok else
+               f"an existing file whose mtime is {ts} is reported as missing (None) or with another time: a truthiness test on the "
+               f"timestamp confuses the epoch with 'no file' - the stored value exists, read() returns it, but get_modified_time() says None")
     # "never decreases across successive writes": the values are compared by their users as they come.  Aware values and naive
     # UTC values order like the instants they denote; naive LOCAL values do not (comparison ignores fold: the hour before the
     # clocks go back is repeated).  Evaluated on the datetime frame model of C18.
